@@ -18,6 +18,7 @@ package polling
 
 // C02 / C01 (polling transport). The poll queue is the same FIFO: add appends in one critical section, get drains.
 //@ func (*pollQueue).add
+//@   modifies pq.packets, elems(pq.packets)
 //@   opt safety off
 //@   requires pq != nil
 //@   ghost stores int = 0
@@ -30,6 +31,7 @@ package polling
 //@   ensures !held(pq.mu) [C02.pollq.add.released]
 
 //@ func (*pollQueue).get
+//@   modifies pq.packets
 //@   opt safety off
 //@   requires pq != nil
 //@   onstore packets
